@@ -4,18 +4,21 @@ EXTENDS Resample, Json, IOUtils
 Cases == ndJsonDeserialize(IOEnv.CASES)
 Obs   == ndJsonDeserialize(IOEnv.OBS)
 B1(c) == CHOOSE b \in BranchSet(c.P) : \A d \in BranchSet(c.P) : b[Len(b)] <= d[Len(d)]        \* the branch ending in the lowest-numbered critical node
-WhyTreeResult(r, exp, what) ==
+WhyTreeResult(r, exp, expPairs, nBranches, what) ==
     IF r.err # "" THEN what \o "-raised-" \o r.err
     ELSE IF ~WF(r.pid) THEN what \o "-result-not-well-formed"
+    ELSE IF Cardinality(BranchSet(r.pid)) # nBranches THEN what \o "-branch-count"
     ELSE IF ~ChainsMatch(ObsChains(r.pid, r.pts), exp) THEN what \o "-points"
+    ELSE IF ~PairsMatch(ObsPairs(r.pid, r.pts), expPairs) THEN what \o "-connectivity"
     ELSE ""
 PtsClose(op, ep) == Len(op) = Len(ep) /\ \A k \in 1 .. Len(ep) : ClosePt(op[k], ep[k])
 Why(c, o) ==
     LET P == c.P  pos == c.pos  rad == c.rad  b1 == B1(c)
-        w1 == WhyTreeResult(o.iso, IsoTree(P, pos, rad, c.sp, c.adjust), "resample")
-        w2 == WhyTreeResult(o.same, SameTree(P, pos, rad), "assemble") IN
+        nb == Cardinality(BranchSet(P))
+        w1 == WhyTreeResult(o.iso, IsoTree(P, pos, rad, c.sp, c.adjust), IsoPairs(P, pos, rad, c.sp, c.adjust), nb, "resample")
+        w2 == WhyTreeResult(o.same, SameTree(P, pos, rad), SamePairs(P, pos, rad), nb, "assemble") IN
     IF o.err # "" THEN "raised-" \o o.err
-    ELSE IF ~AxisOK(P, pos) \/ ~CriticalsDistinct(P, pos) THEN "MACHINERY-case-outside-the-domain"
+    ELSE IF ~AxisOK(P, pos) \/ ~CriticalsOK(P, pos) THEN "MACHINERY-case-outside-the-domain"
     ELSE IF w1 # "" THEN w1
     ELSE IF o.iso.rtype # c.rtype THEN "resample-root-type"
     ELSE IF o.iso.len > 10000 * SumOver(Nodes(P) \ {0}, [i \in Nodes(P) \ {0} |-> SegLen(pos, i, Par(P, i))]) + 20 THEN "resample-total-length-grew"
